@@ -425,11 +425,58 @@ def gen_history(rng, infos, length):
     return reqs
 
 
+def _scan_statics():
+    """Every C source the builtin models are compiled from (models/*.c, models/lib/*.c, kernel_iq.c, kernel_header.c):
+    variables with static storage that are not const - inside a function body or at file scope.  Such a variable keeps
+    its value from one evaluation to the next; the model of C11 (a call is a function of its arguments and of buffers
+    it overwrites) has no place for it.  Returns (list of "file:name", number of files)."""
+    import glob
+    import re
+    from . import ctrans
+    root = os.path.join(common.REPO, "sasmodels")
+    files = sorted(glob.glob(os.path.join(root, "models", "*.c")) + glob.glob(os.path.join(root, "models", "lib", "*.c"))) + \
+        [os.path.join(root, "kernel_iq.c"), os.path.join(root, "kernel_header.c")]
+    found = []
+    for path in files:
+        text = ctrans.strip_comments(open(path, errors="replace").read())
+        text = re.sub(r'"(?:\\.|[^"\\])*"', '""', text)
+        text = re.sub(r"^\s*#.*?(?<!\\)$", "", text, flags=re.M)            # preprocessor lines (without continuations)
+        for m in re.finditer(r"\bstatic\b([^;{}()=]*?)([A-Za-z_]\w*)\s*(\[[^\]]*\]\s*)*(=|;)", text):
+            quals = m.group(1).split()
+            if "const" in quals or "constant" in quals:
+                continue
+            found.append("%s:%s" % (os.path.basename(path), m.group(2)))
+    return found, len(files)
+
+
+def gen():
+    """Regenerate Gen/C11_statics.v from the C sources of the builtin models."""
+    lines = ["(* GENERATED by harness/c11.py from sasmodels/models/*.c, models/lib/*.c, kernel_iq.c, kernel_header.c *)",
+             "From Coq Require Import List String.", "Import ListNotations.", "Open Scope string_scope.", ""]
+    note = None
+    try:
+        found, nfiles = _scan_statics()
+    except (OSError, ValueError) as exc:
+        note = "%s: %s" % (type(exc).__name__, exc)
+        found, nfiles = [], 0
+    lines.append("Definition statics_scanned : bool := %s." % ("true" if note is None else "false"))
+    if note:
+        lines.append("(* not scanned: %s *)" % note.replace("*)", "* )"))
+    lines += ["Definition code_files_scanned : nat := %d." % nfiles,
+              "(* non-const variables with static storage (file:name) *)",
+              "Definition code_mutable_statics : list string := [%s]." % "; ".join('"%s"' % f for f in found), ""]
+    common.write_if_changed(os.path.join(common.THEORIES, "Gen", "C11_statics.v"), "\n".join(lines))
+    return note
+
+
 def main(run):
     from sasmodels.core import load_model_info
     rng = random.Random(run.seed * 997 + 11)
     thorough = run.tier == "thorough"
-    run.prove(["C11/Property.v"])
+    note = []
+    run.prove(["C11/Property.v"], gen=lambda: note.append(gen()))
+    run.notes.append(("the C sources could not be scanned for static state (%s)" % note[0]) if note and note[0] else
+                     "the C sources of the builtin models scanned for non-const variables with static storage (Gen/C11_statics.v): none (C11_code_no_static_state) - the model's 'a call is a function of its arguments and of the buffers it overwrites' has no hidden C state to miss")
     wdir = run.scratch.sub("c11")
     wpath = os.path.join(wdir, "worker.py")
     open(wpath, "w").write(WORKER)
